@@ -4,6 +4,8 @@ from . import props as P, gen
 
 NA_REASONS = {
     "C03": "deciding code is wasmparser's payload/section/operator readers interleaved inline with wirm's handlers in parse_internal/parse_comp; CBMC does not finish OperatorsReader::read on 6 symbolic bytes in 20 min and there is no wirm-owned unit to cut out; a fuzzer is the right tool, it is not this family (DESIGN.md section 6)",
+    "C04": "the hash seed reaches the output only through the iteration order of std HashMap; the one site where that order matters (ModuleTypes::new filling types_map) needs ModuleTypes::new on parsed types, which CBMC does not finish (741 s for one instance in the design round, > 30 min with symbolic types), and the map iterations inside the lowering run only natively, where a single process cannot vary the seed; see DESIGN.md section 6 for what was read from source",
+    "C12": "FunctionBuilder::finish_module clones the built body (Operator::clone): a harness that builds two instructions and finishes the function ran out of memory after 18 min; the reachable parts are claimed elsewhere (helpers C24, locals C14, add_local_func ids in K-ops / engine M, function types C13)",
     "C23": "the side-effect report is assembled by ~15 inline `if let Some(tag)` sites inside encode_internal between wasm-encoder calls and every record clones Vec<Operator>; Operator::clone alone exhausts CBMC (6-12 GB, no result in 7 min); no symbolic variable can be placed on the native side (DESIGN.md section 6)",
     "C26": "the deciding code (ComponentSubIterator::next/next_module) keeps per-module Vec metadata and skip lists inside maps and clones them on every module switch; with either HashMap model and even with concrete ids and skip lists CBMC's symbolic execution does not finish in 25 min for 2 modules x 2 functions (path explosion in slice::contains over the cloned Vec), and the same injections through ComponentIterator run out of memory (> 30 GB); comparing the outputs of the two iterator paths natively would be testing, not this family (DESIGN.md section 6)",
     "C27": "parse_comp's nesting stack is driven by wasmparser's Parser::parse_all payload stream and encode_comp is ~600 lines of inline wasm-encoder calls; neither can be symbolically executed and no separable wirm-owned unit bears on 'any nesting depth' (DESIGN.md section 6)",
@@ -20,7 +22,7 @@ def build():
             "thorough_cmd": "bin/check %s --tier thorough" % pid,
             "evidence_file": "/verif/evidence/%s.json" % pid,
             "replay_cmd_template": "bin/check %s --replay {path}" % pid,
-            "engine": {"K": "kani-scratch", "T": "z3-trace-validation", "KT": "kani-scratch + z3-trace-validation"}[pr["engines"]],
+            "engine": {"K": "kani-scratch", "T": "z3-trace-validation", "KT": "kani-scratch + z3-trace-validation", "KM": "kani-scratch + z3-module-validation"}[pr["engines"]],
             "level_claimed": {
                 "category": pr["level"],
                 "text": pr["text"],
@@ -49,6 +51,8 @@ def build():
              "kind_free_text": "bounded model checking (Kani 0.68 / CBMC 6.11 / CaDiCaL) of the real wirm source, unit by unit, on a per-run scratch copy"},
             {"name": "z3-trace-validation", "path": "tv/", "serves_properties": sorted(p for p in P.PROPS if "T" in P.PROPS[p]["engines"]),
              "kind_free_text": "SMT (z3, QF_BV) bounded trace equivalence between the output of the real parse->inject->encode pipeline and the property's reference semantics, for all oracle schedules up to K steps"},
+            {"name": "z3-module-validation", "path": "vlib/mv.py tv/driver/src/hist.rs", "serves_properties": sorted(p for p in P.PROPS if "M" in P.PROPS[p]["engines"]),
+             "kind_free_text": "SMT (z3, bit-vectors + arrays) equivalence of the instantiation semantics of the module produced by the real parse->edit-history->encode pipeline with a label-based reference model, for all host-supplied values (imported globals / functions, memory contents), over bounded-exhaustive edit histories"},
         ],
         "checks": checks,
         "not_applicable": na,
